@@ -66,6 +66,25 @@ def main():
           'are unknown while user.py is visited.')
     for name, a, b in diffs:
         print(f'  {name}:\n     base.py user.py -> {a}\n     user.py base.py -> {b}')
+
+    # Same thing with one root: only the alphabetical position of the importing module changes.
+    def single_root(user):
+        import json
+        files = {'top/__init__.py': '',
+                 'top/base.py': FILES['base.py'],
+                 f'top/{user}.py': FILES['user.py'].replace('import base', 'import top.base')
+                                                   .replace('base.B', 'top.base.B').replace('base.helper', 'top.base.helper')}
+        d = Path(tempfile.mkdtemp(prefix='c06_demo1_', dir=tmp))
+        for rel, src in files.items():
+            (d / rel).parent.mkdir(parents=True, exist_ok=True)
+            (d / rel).write_text(src)
+        return json.loads(json.dumps(document(files, [d / 'top'])).replace(f'top.{user}', 'top.USER'))
+    late, early = single_root('user'), single_root('a_user')
+    print('Single root "top" with base.py and the importing module ("import top.base") named user.py (analysed after '
+          'base.py) or a_user.py (analysed before it):')
+    for k in sorted(set(early) | set(late)):
+        if early.get(k) != late.get(k):
+            print(f'  {k}:\n     importer = user   -> {late.get(k)}\n     importer = a_user -> {early.get(k)}')
     return 1
 
 if __name__ == '__main__':
